@@ -627,4 +627,58 @@ def summaryOld (data : List Int) : Option Summary := summaryWith findMedianAndSp
 /-- `sort.Slice(idCheckData, <)` -/
 def sortCounts (data : List Int) : List Int := data.mergeSort (fun a b => decide (a ≤ b))
 
+/-! ### subscribers of a node's block source (`BlockHistoryTracker`)
+
+Every plugin instance of a simulated node subscribes its metadata store to the node's block source and
+unsubscribes when it is closed; libocr closes an instance and builds the next one whenever another `ocr3config`
+event appears on the chain, i.e. while blocks — and with them broadcasts of the block history — keep coming.
+`Unsubscribe` CLOSES the subscriber's channel, and a send on a closed channel ends the process. -/
+
+/-- the registry of a block source: the open subscriber channels and, while a broadcast is under way, the
+channels it still has to send to -/
+structure Hub where
+  next        : Nat := 0
+  chans       : List Nat := []
+  pending     : List Nat := []
+  delivered   : Nat := 0
+  closedSends : Nat := 0        -- sends on a channel that had been closed: each one is a crash of the process
+deriving DecidableEq, Repr
+
+inductive HubOp where
+  | sub                 -- `Subscribe`: a new channel enters the registry
+  | unsub (id : Nat)    -- `Unsubscribe`: close the channel, delete it from the registry (unknown id: nothing)
+  | snap                -- `broadcast`, first step: the channels to send to
+  | send                -- `broadcast`: one send, to the next of them
+deriving DecidableEq, Repr
+
+/-- One step.  `locked = true`: `broadcast` holds the registry's read lock from its first step to its last send
+(`ht.mu.RLock(); defer ht.mu.RUnlock()`), so a `Subscribe` / `Unsubscribe` (write lock) that arrives in between
+waits — it has no effect at this point of the schedule and is tried again later.  `locked = false`: the lock is
+released once the channels have been taken.  The block source has ONE run goroutine: a broadcast starts only when
+the previous one is through. -/
+def Hub.step (locked : Bool) (h : Hub) : HubOp → Hub
+  | .sub =>
+    if locked && !h.pending.isEmpty then h
+    else { h with next := h.next + 1, chans := h.chans ++ [h.next + 1] }
+  | .unsub id =>
+    if locked && !h.pending.isEmpty then h
+    else { h with chans := h.chans.erase id }
+  | .snap => if h.pending.isEmpty then { h with pending := h.chans } else h
+  | .send =>
+    match h.pending with
+    | [] => h
+    | c :: rest =>
+      if decide (c ∈ h.chans) then { h with pending := rest, delivered := h.delivered + 1 }
+      else { h with pending := rest, closedSends := h.closedSends + 1 }
+
+def Hub.run (locked : Bool) (ops : List HubOp) (h : Hub := {}) : Hub := ops.foldl (Hub.step locked) h
+
+/-- the schedule of a churn case: `slow` subscribers that stay, then `k` instances one after the other, each
+subscribing, being caught by a broadcast, asking to leave while that broadcast is under way, and asking again
+when it is through -/
+def churnSchedule (slow k : Nat) : List HubOp :=
+  List.replicate slow .sub ++
+  (List.range k).flatMap fun i =>
+    [.sub, .snap, .unsub (slow + i + 1)] ++ List.replicate (slow + 1) .send ++ [.unsub (slow + i + 1)]
+
 end AutoVerif.C20
